@@ -23,7 +23,7 @@ All three on the model of /repo fefa081 (`decline := false`), thinker of the CUR
 process dies in the middle of the server's game.  The records are legal by the rule book (`*_record_legal`).  Replayed on
 the real code on every check: `corpus/C07/compose-fpa-legal-record-panic.ops`.
 
-**The repair** (`fixes/C07-fpa-script-decline.diff`, modelled by `Impl/FPATotal.lean`, `Compose.Conf.decline = true`, the
+**The repair** (`fixes/C07-fpa-script-declines.diff`, modelled by `Impl/FPATotal.lean`, `Compose.Conf.decline = true`, the
 default): a script that panics declines (`ok == false`), `Friendly.GetMove` asks the searching player.  Then
 * `scripts_total` – `GetMove` of every variant answers on every view with every notes;
 * `rule_total_declining` – on a record whose moves are placements or slides the whole rule code runs through;
@@ -122,7 +122,7 @@ theorem cairn_flat_record_legal :
 
 /-- **`ruleOK_fails_on_legal_record`** — the hypothesis `RuleOK` that `bot_dead_only_by_search` / `bot_never_dead_guarded`
 carried for double stack and cairn is FALSE on an event list that is nothing but a legal game replayed by the server
-(check verdicts quiet): it cannot be discharged for the tree before `fixes/C07-fpa-script-decline.diff`. -/
+(check verdicts quiet): it cannot be discharged for the tree before `fixes/C07-fpa-script-declines.diff`. -/
 theorem ruleOK_fails_on_legal_record :
     ¬ RuleOK (unpatched (conf .black 5 (.friendly (some .doubleStack)) true)) stubSearcher
         (Compose.start (unpatched (conf .black 5 (.friendly (some .doubleStack)) true)) 600 ()) dsWallEvs := by
@@ -140,7 +140,7 @@ theorem ruleOK_fails_on_legal_record :
 
 /-! ## the repair: scripts that decline -/
 
-/-- **`scripts_total`** — with `fixes/C07-fpa-script-decline.diff`, `GetMove` of every variant returns on every position,
+/-- **`scripts_total`** — with `fixes/C07-fpa-script-declines.diff`, `GetMove` of every variant returns on every position,
 whatever the rule remembers: `dir` on coinciding squares, `adjacent` without an empty neighbour, no square for the cairn
 stones — the script declines -/
 theorem scripts_total (var : Variant) (r : Rule) (v : View) : ∃ y, getMoveD var r v = .ok y :=
@@ -337,7 +337,7 @@ theorem glueCall_cur_ok_declining (c : Compose.Conf) (hrep : c.replay = true) (h
       exact hlen (hchk ha)
   · exact ⟨_, rfl⟩
 
-/-- **`current_thinker_total_declining`** — `current_thinker_total` for the tree with `fixes/C07-fpa-script-decline.diff`,
+/-- **`current_thinker_total_declining`** — `current_thinker_total` for the tree with `fixes/C07-fpa-script-declines.diff`,
 WITHOUT the hypothesis `C20.RuleTotal`: in every reachable state of the composed system whose protocol goroutine has not
 panicked, the `GetMove` call of the thinker of the current invocation runs through — no index panic on the record, no
 panic in the rule's `LegalMove`, none in its scripts —, for `Friendly` with any rule or none and for `Taktician`, provided
@@ -385,7 +385,7 @@ theorem callsOK_declining (c : Compose.Conf) (hrep : c.replay = true) (hdec : c.
         s.fpa chk (hM.1 hrun) hc
     | _ => trivial
 
-/-- **`bot_dead_only_by_search_declining`** — the tree with `fixes/C07-fpa-script-decline.diff`: for `Taktician` and
+/-- **`bot_dead_only_by_search_declining`** — the tree with `fixes/C07-fpa-script-declines.diff`: for `Taktician` and
 `Friendly` with ANY rule (double stack and cairn included) or none, any searching player, colour, size 3..8, clock and
 EVERY event list with sane check verdicts (`ChkOK`) whose records hold placements and slides (`MovesOK`): a thinker
 goroutine is lost only to an error raised by the searching player itself. -/
